@@ -25,6 +25,8 @@ mod duration;
 pub use ser::{Duration, Timestamp};
 
 mod ser;
+#[cfg(kani)]
+pub mod verif_map;
 pub use ser::to_value;
 pub use ser::SerializationError;
 
